@@ -16,7 +16,7 @@ MANIFEST_ENTRY = {
 }
 RULE = ("a case is one generated input (or call history / session) pushed through the real operator(s) and the model; distinct non-trivial = distinct "
         "(stream, row parity, col parity, square?, #modes, #slices, index kind / shift kind / amplitude kind / value class / history kinds / session op sequence) "
-        "with at least 1x1 pixels or a non-empty index list; the fixed blocks (proj 36, rhist 14, session 45 cases) are the same for every seed")
+        "with at least 1x1 pixels or a non-empty index list; the fixed blocks (proj 36, rhist 24, session 60 cases) are the same for every seed")
 TRUSTED = ["torch.fft / numpy.fft compute the defining DFT sums; torch index_add_ (sequential accumulation, IndexError at the first index outside [0,n) after partial writes, RuntimeError on a length mismatch) and advanced indexing (negative indices wrap once) - modelled, sampled",
            "fourier_translation_operator evaluates `-2j*pi*fftfreq` in float32/complex64 even for float64 positions, propagators are complex64: integer-shift = roll and the propagation identities hold to float32 accuracy only (5e-4 rule; measured ~4e-6, values in `measured`)",
            "Python dict semantics of the constraint dictionaries (insertion order, key-by-key writes, KeyError after partial writes) - modelled, sampled by the session stream"]
@@ -1511,6 +1511,9 @@ def check_signatures(ctx, I):
 
 
 # ----------------------------------------------------------------------------- stream: histories with RAISING calls
+MUTATE_WHICH = ["translation", "shift", "forward_operator", "projection", "sum_patches"]
+
+
 def exc_name(e):
     return "IndexError" if isinstance(e, IndexError) else ("RuntimeError" if isinstance(e, RuntimeError) else type(e).__name__)
 
@@ -1526,8 +1529,8 @@ def s_rhist(ctx, drv, I, case):
     rng = Rng(case["rseed"])
     op = rng.weighted([("sum_patches", 6), ("get_obj_patches", 2), ("shift", 1), ("projection", 2), ("propagate", 1), ("detector", 1), ("forward_operator", 1), ("mutate_args", 4)])
     fx = case.get("fixed")
-    if fx is not None:
-        op = "sum_patches"
+    if fx is not None:      # fixed block: 14 sum_patches histories with raising calls, then every in-place-update target twice
+        op = "sum_patches" if fx < 14 else "mutate_args"
         ctx.dist["rhist.fixed_block"] += 1
     case.update({"op": op})
     ctx.count()
@@ -1646,7 +1649,9 @@ def s_rhist(ctx, drv, I, case):
         # build, derive, mutate the parent IN PLACE, derive again: the SAME argument objects (same id / data_ptr, as the
         # optimiser updates descan shifts / positions / amplitudes in place) are given new values between calls; every
         # call must equal the call on fresh clones of the current values and satisfy its identity against an oracle
-        which = rng.choice(["translation", "shift", "forward_operator", "projection", "sum_patches"])
+        which = rng.choice(MUTATE_WHICH)
+        if fx is not None:
+            which = MUTATE_WHICH[(fx - 14) % len(MUTATE_WHICH)]
         case.update({"which": which})
         ctx.dist[f"rhist.mutate_args.{which}"] += 1
         gpos = lambda: np.array([[dy(rng, -3, 3, 64), dy(rng, -3, 3, 64)] for _ in range(B)])      # noqa: E731
@@ -1693,12 +1698,12 @@ def s_rhist(ctx, drv, I, case):
             if step:
                 for a_, g_ in zip(args, gens):
                     a_.copy_(T(I, g_(), a_.dtype))      # same objects, new values
-            out = f(*args)
-            fresh = f(*[a_.clone() for a_ in args])
-            if _bits(out) != _bits(fresh):
-                ctx.pred_fail(f"stale-after-inplace-update:{which}", f"{which}: call {step + 1} on in-place updated argument objects differs from the same call on fresh clones (stale cached value)", case,
-                              observed="bitwise difference", required="identical results")
+            out = f(*args)      # no other call in between: an identity-keyed cache would still hold the previous values
             chk(out, args)
+        fresh = f(*[a_.clone() for a_ in args])
+        if _bits(out) != _bits(fresh):
+            ctx.pred_fail(f"stale-after-inplace-update:{which}", f"{which}: the last call on in-place updated argument objects differs from the same call on fresh clones (stale cached value)", case,
+                          observed="bitwise difference", required="identical results")
         ctx.sample({kk: case[kk] for kk in ("stream", "rseed", "op", "which", "shape", "modes")}, limit=12)
         return
     if op == "shift":
@@ -1873,10 +1878,10 @@ def s_session(ctx, drv, I, case):
         # reset, the shorter history set -> reset, and the same with a rejected (partially written) dict in between
         key, val = SESSION_FIXED_KEYS[fx % len(SESSION_FIXED_KEYS)]
         setter = ["ptycho_set", "obj_add", "obj_set", "reconstruct", "reconstruct_reset"][(fx // len(SESSION_FIXED_KEYS)) % 5]
-        variant = (fx // (5 * len(SESSION_FIXED_KEYS))) % 3
+        variant = (fx // (5 * len(SESSION_FIXED_KEYS))) % 4
         if key not in okeys:
             return
-        if variant != 1:
+        if variant in (0, 2):
             add("reset")
         if setter == "obj_add":
             add("obj_add", (key, val))
@@ -1886,7 +1891,10 @@ def s_session(ctx, drv, I, case):
             add(setter, [("object", {key: val})])
         if variant == 2:
             add("ptycho_set", [("object", {"tv_weight_xy": 0.1, "bogus": 1, key: None})])
-        add("reset")
+        if variant == 3:      # un-set explicitly (the falsy value None) instead of resetting
+            add("ptycho_set", [("object", {key: None})])
+        else:
+            add("reset")
     else:
         k = rng.randint(2, 7)
         for j in range(k):
@@ -1953,7 +1961,8 @@ def s_session(ctx, drv, I, case):
             if got != want:
                 ctx.disagree("session-constraints", case, want, got, f"after operation {j + 1} of {len(ops)} ({o[0]}): constraint dictionaries / KeyError behaviour differ from the session model")
             # the energy clause whenever the MODEL says the constraints in force keep the modulus of a pure-phase object
-            if m["neutral"] and (o[0] in ("reset", "reconstruct_reset_empty") or (j == len(ops) - 1) or rng.chance(0.3)):
+            was_neutral = mres[pos - len(grp) - 1]["neutral"] if pos - len(grp) > 0 else True
+            if m["neutral"] and (o[0] in ("reset", "reconstruct_reset_empty") or (j == len(ops) - 1) or not was_neutral or rng.chance(0.3)):
                 forward_energy(ctx, I, p, rng, case, "after-reset" if o[0] in ("reset", "reconstruct_reset_empty") else "neutral-constraints", obj_type)
         if rng.chance(0.4):      # a model built AFTER the history starts from the defaults as well
             p2 = real_instance(ctx, M, (nr, nc), obj_type, cache=False, seed=1, rng_seed=1, scan=(2, 2))
@@ -1975,11 +1984,11 @@ STREAMS = {           # name: (function, quick count, thorough count)
     "instance": (s_instance, 50, 600),
     "history": (s_history, 130, 2500),
     "rhist": (s_rhist, 90, 2000),
-    "session": (s_session, 30, 800),
+    "session": (s_session, 25, 800),
 }
 
 
-FIXED = {"proj": 36, "rhist": 14, "session": 45}      # sizes of the fixed (seed-independent) blocks
+FIXED = {"proj": 36, "rhist": 24, "session": 60}      # sizes of the fixed (seed-independent) blocks
 
 
 def run_case(ctx, drv, I, name, case):
